@@ -173,3 +173,21 @@ func verifLemma_C15_diamond() {
 	verifrt.Assert(m[b6.Reference(b)] && m[b6.Reference(c)] && m[b6.Reference(d)], "transitive-referrers-found")
 	verifrt.Assert(!m[b6.Reference(a)] && !m[b6.Reference(x)], "nothing-else-found")
 }
+
+// C15: removing a feature from the reference index removes exactly its own
+// entries: another feature that references the same target stays listed, also
+// when the removed feature references that target more than once (bounded:
+// two relations, one shared member).
+func verifLemma_C15_remove_keeps_other_referrers() {
+	p := b6.FeatureID{Type: b6.FeatureTypePoint, Namespace: "diagonal.works/verif", Value: 7}
+	q := &RelationFeature{RelationID: b6.RelationID{Namespace: "diagonal.works/verif", Value: 2}, Members: []b6.RelationMember{{ID: p}}}
+	r := &RelationFeature{RelationID: b6.RelationID{Namespace: "diagonal.works/verif", Value: 3}, Members: []b6.RelationMember{{ID: p}, {ID: p}}}
+	// the index as AddFeature builds it: one entry per referring feature
+	f := FeatureReferencesByID{p: []b6.Reference{q.FeatureID(), r.FeatureID()}}
+	f.RemoveFeature(r)
+	refs := f[p]
+	verifrt.Assert(len(refs) == 1, "other-referrer-kept")
+	verifrt.Assert(refs[0].Source() == q.FeatureID(), "other-referrer-is-the-one-kept")
+	f.RemoveFeature(q)
+	verifrt.Assert(len(f[p]) == 0, "no-entry-left")
+}
